@@ -50,6 +50,9 @@ func MsgCreateValidator(v Val, key ConsKey, amt int64) sdk.Msg {
 // slash (downtime fraction), jail, set jailed-until. It is an environment event of the provider
 // chain (CometBFT vote infos are not modelled).
 func (s *State) JailDowntime(p *Provider, v Val) error {
+	if s.C.Rec != nil {
+		s.C.Rec.Tainted = "environment event (downtime jailing by the slashing module)"
+	}
 	ctx := s.Ctx
 	sk := p.PApp.SlashingKeeper
 	stk := p.PApp.StakingKeeper
